@@ -36,15 +36,25 @@ async def pass_all(_name, _sig, _context):
 
 class NfdRegister(PrefixRegisterer):
     _prefix_register_semaphore: aio.Semaphore = None
+    _semaphore_loop: aio.AbstractEventLoop = None
     _last_command_timestamp: int = 0
 
     def __init__(self):
         super().__init__()
         self._prefix_register_semaphore = aio.Semaphore(1)
 
+    def _command_lock(self) -> aio.Semaphore:
+        # An asyncio primitive belongs to the event loop it first waited on, and every run_forever()
+        # is a new event loop: one semaphore per loop, like the one NDNApp.main_loop creates in ndn.app.
+        loop = aio.get_running_loop()
+        if self._semaphore_loop is not loop:
+            self._semaphore_loop = loop
+            self._prefix_register_semaphore = aio.Semaphore(1)
+        return self._prefix_register_semaphore
+
     async def register(self, name: enc.NonStrictName) -> bool:
         # Fix the issue that NFD only allows one packet signed by a specific key for a timestamp number
-        async with self._prefix_register_semaphore:
+        async with self._command_lock():
             for _ in range(10):
                 now = utils.timestamp()
                 if now > self._last_command_timestamp:
@@ -81,7 +91,7 @@ class NfdRegister(PrefixRegisterer):
 
     async def unregister(self, name: enc.NonStrictName) -> bool:
         # Fix the issue that NFD only allows one packet signed by a specific key for a timestamp number
-        async with self._prefix_register_semaphore:
+        async with self._command_lock():
             for _ in range(10):
                 now = utils.timestamp()
                 if now > self._last_command_timestamp:
